@@ -248,6 +248,7 @@ func runSchemaResolve(payload []*Sx) *Sx {
 func init() {
 	kinds["schemainfo"] = runSchemaInfo
 	kinds["typeof"] = runTypeOf
+	kinds["vverdict"] = runVVerdict
 }
 
 // schemainfo: <schema text> -> (parse-error) | (resolve-error) | (info (entities (name (parents..) (shape..) (tags..))...) (enums name...) (actions uid...))
@@ -310,7 +311,19 @@ func runSchemaInfo(payload []*Sx) *Sx {
 		sort.Slice(ps, func(i, j int) bool { return ps[i].String() < ps[j].String() })
 		pl := L(A("parents"))
 		pl.List = append(pl.List, ps...)
-		as.List = append(as.List, L(uidSx(u), cx, pl))
+		ap := L(A("applies"), A("none"))
+		if act.AppliesTo != nil {
+			pr := L(A("principals"))
+			for _, p := range act.AppliesTo.Principals {
+				pr.List = append(pr.List, AS(string(p)))
+			}
+			rr := L(A("resources"))
+			for _, p := range act.AppliesTo.Resources {
+				rr.List = append(rr.List, AS(string(p)))
+			}
+			ap = L(A("applies"), pr, rr)
+		}
+		as.List = append(as.List, L(uidSx(u), cx, pl, ap))
 	}
 	return L(A("info"), es, en, as)
 }
@@ -337,4 +350,27 @@ func runTypeOf(payload []*Sx) *Sx {
 		return L(A("err"))
 	}
 	return L(A("ok"), AS(name))
+}
+
+// vverdict: <schema text> <info (ignored)> strict|permissive <policy> -> (accept) | (reject)
+func runVVerdict(payload []*Sx) *Sx {
+	var s schema.Schema
+	if err := s.UnmarshalCedar([]byte(payload[0].Str())); err != nil {
+		return L(A("schema-error"))
+	}
+	rs, err := s.Resolve()
+	if err != nil {
+		return L(A("schema-error"))
+	}
+	var v *validate.Validator
+	if payload[2].Atom == "strict" {
+		v = validate.New(rs, validate.WithStrict())
+	} else {
+		v = validate.New(rs, validate.WithPermissive())
+	}
+	_, pol := policyFromSx(payload[3])
+	if v.Policy("p", pol) != nil {
+		return L(A("reject"))
+	}
+	return L(A("accept"))
 }
